@@ -151,6 +151,9 @@ inline Outcome check_input(const std::string &in) {
         if (pre) memcpy(mem, prefix, pre);
         memcpy(mem + pre, in.data(), in.size());
         if (pres == 0) mem[in.size()] = 0;
+        // every seventh input of the length-delimited presentation lies in read-only memory
+        std::unique_ptr<vp::RoBlock> ro;
+        if (pres == 1 && !in.empty() && vp::fnv((const uint8_t *)in.data(), in.size(), 5) % 7 == 0) { ro.reset(new vp::RoBlock(in.data(), in.size())); if (ro->p) { free(mem); mem = (char *)ro->p; } else ro.reset(); }
         long live0 = ledger().live;
         errno = ambient;
         struct sx_parse_result res = pres == 0 ? sx_parse_string(mem) : pres == 1 ? sx_parse_stringn(mem, in.size()) : pres == 2 ? sx_parse(mem, pre + in.size(), pre)
@@ -173,7 +176,7 @@ inline Outcome check_input(const std::string &in) {
         }
         if (res.node) sx_destroy(&res.node);
         if (key.empty() && ledger().live != live0) { key = "leak"; msg = vp::fmt("%ld allocations outstanding after the parse", ledger().live - live0); }
-        free(mem);
+        if (!ro) free(mem);
         if (!key.empty()) { o.key = std::string(P) + key; o.msg = msg; return o; }
     }
     if (r.v == ACCEPT) o.nontrivial = r.tree.has_nested_empty() || r.tree.depth() >= 3 || in.find_first_of("ABCDEF") != std::string::npos;
